@@ -255,6 +255,8 @@ theorem PosI.step [DecidableEq V] {t0 : Tbl Loc V} {j : Journal V} {s : St V} (h
     exact frame _ rfl rfl rfl (by intro _ _ _ h; cases h) (by intro _ h; cases h)
   | tableSync t =>
     exact frame _ rfl rfl rfl (by intro _ _ _ h; cases h) (by intro _ h; cases h)
+  | tableDelete t =>
+    exact frame _ rfl rfl rfl (by intro _ _ _ h; cases h) (by intro _ h; cases h)
   | logTruncate f | logDelete f | logReuse f =>
     all_goals
       have hc' : checkDrop s f = none := hc
